@@ -62,7 +62,8 @@ def gen_case(rng, plausible=True, malformed=False):
         if rng.random() < 0.08:
             show.append([15, 1, [rng.choice([[1, rng.choice(others), 0], [14, 5]])], []])
         if rng.random() < 0.15:
-            closed.append(rng.choice([[14, 3], [7], [14, 4]]))
+            # closed(): marks, a redraw request — or the closed screen puts ANOTHER screen on the stack (push / schedule)
+            closed.append(rng.choice([[14, 3], [7], [14, 4], [0, rng.choice(others), 0], [3, rng.choice(others), 0], [14, 3]]))
         if malformed and rng.random() < 0.1:
             refresh.append(rng.choice([[15, 1, [[8]], []], [15, 2, [], [[9]]]]))
         setup = []
